@@ -88,7 +88,7 @@ func Analyze(P *Program, fn *ssa.Function, opts *AnalyzeOpts) *Summary {
 	if opts != nil && opts.Sess != nil {
 		in = opts.Sess.in
 		in.events, in.Fail, in.steps = nil, opts.Sess.fail, 0
-		in.PureInvoke, in.InvokeHook, in.MapLookup, in.Intrinsic = false, nil, nil, nil
+		in.PureInvoke, in.InvokeHook, in.MapLookup, in.Intrinsic, in.WrapEq = false, nil, nil, nil, false
 		st = opts.Sess.base.clone()
 	}
 	if opts != nil && opts.Setup != nil {
